@@ -867,6 +867,13 @@ func parseTypeSystemDefinition(parser *Parser) (ast.Node, error) {
 	if item, ok = tokenDefinitionFn[keywordToken.Value]; !ok {
 		return nil, unexpected(parser, keywordToken)
 	}
+	if keywordToken != parser.Token {
+		// after a description only a describable definition may follow
+		switch keywordToken.Value {
+		case "query", "mutation", "subscription", "fragment", "schema", "extend":
+			return nil, unexpected(parser, keywordToken)
+		}
+	}
 	return item(parser)
 }
 
@@ -1581,7 +1588,9 @@ func reverse(parser *Parser, openKind lexer.TokenKind, parseFn parseFn, closeKin
 		return nil, err
 	}
 	var nodes []interface{}
+	closeStart := token.Start
 	for {
+		closeStart = parser.Token.Start
 		if skp, err := skip(parser, closeKind); err != nil {
 			return nil, err
 		} else if skp {
@@ -1594,7 +1603,8 @@ func reverse(parser *Parser, openKind lexer.TokenKind, parseFn parseFn, closeKin
 		nodes = append(nodes, node)
 	}
 	if zinteger && len(nodes) == 0 {
-		return nodes, unexpectedEmpty(parser, token.Start, openKind, closeKind)
+		// the closing token is where the text stops being valid
+		return nodes, unexpectedEmpty(parser, closeStart, openKind, closeKind)
 	}
 	return nodes, nil
 }
